@@ -116,8 +116,16 @@ AltRefChoices(n, s) ==
     {g \in {[d \in 2..n |-> sq[d - 1]] : sq \in AltProd(2, n, s)} :
         \E d \in 2..s : g[d].spec > s \/ g[d].orig > s}            \* some reference crosses into the alt file
 
+\* "cyc": malformed but plausible -- specification / abstract_origin references that lead back (to the DIE
+\* itself, to an earlier DIE): everything must still terminate, and integrate what is reachable once
+CycRefChoices(n) ==
+    {g \in [2..n -> [spec: {0} \cup 2..n, orig: {0} \cup 2..n, first: {"spec", "orig"}, m: 1..3]] :
+        /\ \A d \in 2..n : (g[d].spec = 0 \/ g[d].orig = 0) => g[d].first = "spec"
+        /\ \E d \in 2..n : (g[d].spec # 0 /\ g[d].spec <= d) \/ (g[d].orig # 0 /\ g[d].orig <= d)}
+
 ForestSet ==
-    CASE Family = "altnav" -> UNION {{AltNavForest(p, N, f) : f \in ImpChoices(p, N)} : p \in {q \in ParVecs(N) : Cardinality(RangeOf(RootsOf(q, N))) \in 2..3}}
+    CASE Family = "cyc" -> {AttrForest(N, g) : g \in CycRefChoices(N)}
+      [] Family = "altnav" -> UNION {{AltNavForest(p, N, f) : f \in ImpChoices(p, N)} : p \in {q \in ParVecs(N) : Cardinality(RangeOf(RootsOf(q, N))) \in 2..3}}
       [] Family = "altattr" -> UNION {{AltAttrForest(N, g, s) : g \in AltRefChoices(N, s)} : s \in 2..(N - 2)}
       [] Family = "raw" -> {RawForest(p, N) : p \in ParVecs(N)}
       [] Family = "nav" -> UNION {{NavForest(p, N, f) : f \in ImpChoices(p, N)} : p \in {q \in ParVecs(N) : Cardinality(RangeOf(RootsOf(q, N))) \in 2..3}}
